@@ -189,6 +189,20 @@ class QModel:
                     self.sentinel = i.get('self_adt')
                     self.sentinel_drop = b
         if self.sentinel is None:
+            # the respawn may sit in a private helper the destructor calls (`Worker::restart_after_panic(..)`)
+            for i in cad.impls_of(DROP_TRAIT):
+                for it in i['items']:
+                    b = cad.bodies.get(it['path'])
+                    if b is None or not in_module_of(b, Q):
+                        continue
+                    try:
+                        ib_ = inl(cad, b, never=lambda x: x.path == self.spawn.path)
+                    except Exception:
+                        continue
+                    if any(t.get('resolved') == self.spawn.path and not ib_.blocks[bi_]['cleanup'] for bi_, t in ib_.calls()):
+                        self.sentinel = i.get('self_adt')
+                        self.sentinel_drop = b
+        if self.sentinel is None:
             rep.anchor_lost('Q0', 'sentinel (Drop impl that respawns the worker)')
             return
         # stats ADT + counter fields via the public getters
